@@ -67,6 +67,15 @@ Theorem C18_side_condition_inhabited :
 Proof. exact side_inhabited. Qed.
 Print Assumptions C18_side_condition_inhabited.
 
+(** sealed interfaces (embedding an interface, only unexported methods) are inside the side
+    conditions: bound and wrapped (with no method) by Y as the contract says *)
+Theorem C18_sealed_interface_inhabited :
+  pkg_side ex_sealed = true /\ pkg_agreeb ex_sealed = true
+  /\ map fst (y_typs ex_sealed) = [s "Expr"; s "Stmt"] /\ map fst (g_typs ex_sealed) = [s "Expr"; s "Stmt"]
+  /\ y_wraps ex_sealed = [(s "Expr", mkYW (s "_vt_k_Expr") []); (s "Stmt", mkYW (s "_vt_k_Stmt") [])].
+Proof. exact sealed_bound. Qed.
+Print Assumptions C18_sealed_interface_inhabited.
+
 (* ---------------- constants ---------------- *)
 
 (** integers of any magnitude: the printed digits read back as the value *)
